@@ -741,9 +741,13 @@ def links_and_dot_names_leg(acc):
     links = {CWD + "/proj/link.lua": "../data/impl.txt", CWD + "/proj/l2.lua": "impl2.txt"}
     fmt_all = {"proj/a.lua": F(1), "data/impl.txt": F(2), "proj/impl2.txt": F(3), "proj/notes.txt": U(4)}
     sc("link-in-directory", base, links, ["proj"], fmt_all)
-    # (with `.` the out-of-directory target is itself inside the walk under a name that does not match: which of
-    # its two names decides is not documented, so that file is not judged here)
-    sc("link-in-directory:dot", base, links, ["."], {k: v for k, v in fmt_all.items() if k != "data/impl.txt"})
+    # with `.` the out-of-directory target is itself inside the walk, under a name that is not selected:
+    # that occurrence does not count, the link's does (cf. fix 6dc5113)
+    sc("link-in-directory:dot", base, links, ["."], fmt_all)
+    # a file that is not selected when met during traversal and is also named explicitly, in both orders
+    plain = {"a.lua": U(11), "x.txt": U(12), "sub/y.txt": U(13)}
+    sc("named-after-directory", plain, {}, [".", "x.txt", "sub/y.txt"], {"a.lua": F(11), "x.txt": F(12), "sub/y.txt": F(13)})
+    sc("named-before-directory", plain, {}, ["x.txt", "."], {"a.lua": F(11), "x.txt": F(12), "sub/y.txt": U(13)})
     sc("link-named", base, links, ["proj/link.lua"], {"proj/a.lua": U(1), "data/impl.txt": F(2), "proj/impl2.txt": U(3), "proj/notes.txt": U(4)})
     sc("link-in-directory:check", base, links, ["--check", "proj"], {"proj/a.lua": U(1), "data/impl.txt": U(2), "proj/impl2.txt": U(3), "proj/notes.txt": U(4)}, rc=1)
     dots = {".lua": U(5), "sub/.luau": U(6), "plain.lua": U(7), "lua": U(8), "sub/x.txt": U(9)}
